@@ -503,9 +503,24 @@ Proof.
   rewrite <- Permutation_middle. now constructor.
 Qed.
 
-Lemma ordered_imports_perm : forall pk, Permutation (ordered_imports pk) (imports pk).
+Lemma ordered_imports_perm : forall pk, Permutation (ordered_imports pk) (effective_imports pk).
 Proof.
-  intros. unfold ordered_imports. rewrite isort_perm. apply filter_partition_perm.
+  intros. unfold ordered_imports, effective_imports. apply Permutation_app_tail, isort_perm.
+Qed.
+
+Lemma dedup_imports_incl_gen : forall l acc x,
+  In x (fold_left (fun acc x => if existsb (same_import x) acc then acc else acc ++ [x]) l acc) -> In x acc \/ In x l.
+Proof.
+  induction l as [|y l IH]; intros acc x H; simpl in *; [auto|].
+  apply IH in H. destruct H as [H|H]; [|auto].
+  destruct (existsb (same_import y) acc); [auto|]. apply in_app_or in H. destruct H as [H|[<-|[]]]; auto.
+Qed.
+
+Lemma effective_imports_incl : forall pk i, In i (effective_imports pk) -> In i (imports pk).
+Proof.
+  intros pk i H. unfold effective_imports, named_imports, root_imports, dedup_imports in H. apply in_app_or in H. destruct H as [H|H].
+  - apply dedup_imports_incl_gen in H. destruct H as [[]|H]. apply filter_In in H. tauto.
+  - apply filter_In in H. tauto.
 Qed.
 
 Lemma flat_map_perm {A B} (f : A -> list B) l l' :
@@ -642,7 +657,8 @@ Proof.
     + inversion H; subst. destruct (first_err_some _ _ _ E2) as [i [Hi Hp]].
       destruct (package_check_some _ _ Hp) as [gs [-> [Hne Hg]]]. simpl. split; auto.
       intros g Hin. destruct (Hg g Hin) as [k [Z L]]. exists (import_funcs i), k. split; [|auto].
-      right. exists i. split; [|reflexivity]. eapply Permutation_in; [apply ordered_imports_perm | exact Hi].
+      right. exists i. split; [|reflexivity]. apply effective_imports_incl.
+      eapply Permutation_in; [apply ordered_imports_perm | exact Hi].
     + destruct (check_dupes_some _ _ _ _ H) as [[before [name [f [after [ids [Hal [-> [Hne Hids]]]]]]]] | [gs [-> [Hne Hg]]]].
       * simpl. split; auto. exists before, name, f, after. repeat split; auto.
       * simpl. split; auto.
@@ -728,6 +744,23 @@ Proof.
   split; [|vm_compute; repeat split; reflexivity].
   intros f Hf. simpl in Hf. repeat (destruct Hf as [<-|Hf]; [discriminate|]). destruct Hf.
 Qed.
+
+(* one package mage:import'ed several times (commit 5f65f03): under two aliases, as a root import, and the pair
+   ("e/tools", "ci") written twice - accepted, every name runs the package's definition; the same package as
+   a bare-tag import twice - the code rejects (two entries of rootImports), naming the one definition twice *)
+Definition ex_tools (a : string) : import := {| i_alias := a; i_path := "e/tools"; i_tgts := [T "" "Build"] |}.
+Definition ex_multi : pkg :=
+  {| locals := [T "" "Hello"]; imports := [ex_tools "dev"; ex_tools "ci"; ex_tools ""; ex_tools "ci"];
+     aliases := [("x", {| f_alias := "ci"; f_path := "e/tools"; f_recv := ""; f_name := "Build" |})] |}.
+Definition ex_root2 : pkg := {| locals := []; imports := [ex_tools ""; ex_tools ""]; aliases := [] |}.
+
+Lemma nonvacuous_repeated_imports :
+  mage_accepts ex_multi = true /\ runnable_names ex_multi = ["Hello"; "dev:Build"; "ci:Build"; "Build"; "x"] /\
+  map (fun w => option_map fid (resolve ex_multi w)) ["ci:build"; "DEV:build"; "build"; "X"] =
+    [Some "e/tools.Build"; Some "e/tools.Build"; Some "e/tools.Build"; Some "e/tools.Build"] /\
+  mage_check true ex_root2 = Some (EMulti [("build", [{| f_alias := ""; f_path := "e/tools"; f_recv := ""; f_name := "Build" |};
+                                                      {| f_alias := ""; f_path := "e/tools"; f_recv := ""; f_name := "Build" |}])]).
+Proof. vm_compute. repeat split; reflexivity. Qed.
 
 (* before commit 1f96f80 the alias "say" was accepted next to the target Say and shadowed it *)
 Lemma before_repair_refuted :
